@@ -20,7 +20,7 @@ if [ "$d0" != 0 ] || [ "$d1" = 0 ] || [ "$same" != same ]; then echo "NOT CONFIR
 S=/verif/seeded/$ID-$X; mkdir -p $S
 cp $O/$X.diff $S/patch.diff; sed "s#/tmp/mut/$ID#/repo#g" $O/${X}_demo.py > $S/demo.py; cp $O/${X}_notes.txt $S/notes.txt 2>/dev/null
 cd /verif
-out=$(tools/try_patch.sh $S/patch.diff $ID "$@")
+out=$(tools/try_patch2.sh $S/patch.diff $ID "$@")
 echo "$out"
 /venv/bin/python - "$S" "$ID" "$X" "$tailline" "$d0" "$d1" <<PY
 import json,sys,re
